@@ -54,7 +54,18 @@ def zoo():
         ("OneOrMore.stop", lambda: pp.OneOrMore(W("ab"), stop_on="b")), ("NotAny", lambda: ~L("a") + W("ab")), ("FollowedBy", lambda: pp.FollowedBy("a") + W("ab")),
         ("PrecededBy", lambda: W("ab") + pp.PrecededBy("b") + ","), ("PrecededBy.win", lambda: W("ab") + pp.PrecededBy(W("ab"), retreat=2) + ","),
         ("Group", lambda: pp.Group(W("ab") + ",")), ("Suppress", lambda: pp.Suppress("a") + "b"), ("Combine", lambda: pp.Combine(W("a") + W("b"))),
-        ("Dict", lambda: pp.Dict(pp.OneOrMore(pp.Group(W("ab") + W("ab"))))), ("Located", lambda: pp.Located(W("ab"))),
+        ("Dict", lambda: pp.Dict(pp.OneOrMore(pp.Group(W("ab") + W("ab"))))),
+        # token converters run postParse OUTSIDE the IndexError net of parseImpl: contents that produce empty groups / no tokens / bare tokens
+        ("Dict.emptygroup", lambda: pp.Dict(pp.Group(pp.Opt(W("ab"))) + pp.Group(W("ab")[...]))),
+        ("Dict.delim.emptygroup", lambda: pp.Dict(pp.DelimitedList(pp.Group(pp.Opt(W("ab") + "=" + W("ab")))))),
+        # (Dict over bare tokens raises a deliberate TypeError "Dict expression must contain Grouped expressions": a documented
+        #  diagnostic of grammar misuse, not an internal leak - not a zoo member)
+        ("Dict.onetoken", lambda: pp.Dict(pp.Group(W("ab"))[...])),
+        ("Dict.nested", lambda: pp.Dict(pp.Group(W("ab") + pp.Group(pp.Opt(W("ab"))))[...])), ("Dict.named", lambda: pp.Dict(pp.Group(pp.Opt(W("ab")))("g") + pp.Opt(","))),
+        ("dict_of.optvalue", lambda: pp.dict_of(W("a"), pp.Opt(W("b")))), ("ungroup.empty", lambda: pp.ungroup(pp.Group(pp.Opt("a")))),
+        ("ungroup.none", lambda: pp.ungroup(pp.Opt("a"))), ("Combine.empty", lambda: pp.Combine(pp.Opt("a") + pp.Opt("b"))),
+        ("Group.empty", lambda: pp.Group(pp.Empty())), ("Suppress.empty", lambda: pp.Suppress(pp.Opt("a")) + pp.Opt("b")),
+        ("original_text_for.empty", lambda: pp.original_text_for(pp.Opt("a"))), ("Located.empty", lambda: pp.Located(pp.Opt("a"))), ("Located", lambda: pp.Located(W("ab"))),
         ("SkipTo", lambda: pp.SkipTo("b")), ("SkipTo.incl", lambda: pp.SkipTo(",", include=True)), ("SkipTo.fail", lambda: pp.SkipTo("b", fail_on=",")),
         ("DelimitedList", lambda: pp.DelimitedList(W("ab"))), ("DelimitedList.trail", lambda: pp.DelimitedList(W("ab"), allow_trailing_delim=True)),
         ("AtStringStart", lambda: pp.AtStringStart(W("ab"))), ("AtLineStart", lambda: pp.AtLineStart(W("ab"))),
